@@ -626,6 +626,8 @@ func (cc *Conn) AsyncPing(receivedPong func()) (func(), error) {
 		removeMidHandler()
 		return nil, fmt.Errorf(errFmtWriteRequest, err)
 	}
+	// the caller may be a handler that now waits for the pong: messages queued behind it must not stall
+	cc.receivedMessageReader.TryToReplaceLoop()
 	return removeMidHandler, nil
 }
 
